@@ -60,8 +60,8 @@ tls_match_name(const char *cert_name, const char *name)
 		/* Disallow "*.bar" */
 		if (next_dot == NULL)
 			return -1;
-		/* Disallow "*.bar.." */
-		if (next_dot[1] == '.')
+		/* Disallow "*.bar.." and "*.bar." */
+		if (next_dot[1] == '.' || next_dot[1] == '\0')
 			return -1;
 
 		domain = strchr(name, '.');
